@@ -93,6 +93,10 @@ theorem shutdown_calls (s : St) (j : Nat) :
   unfold shutdown clearResolved
   cases s.rcancel <;> cases s.rel <;> cases hres : s.resolved <;> simp [hres]
 
+@[simp] theorem shutdown_tgtE (s : St) : (shutdown s).tgtE = s.tgtE := by
+  unfold shutdown clearResolved
+  cases s.rcancel <;> cases s.rel <;> cases hres : s.resolved <;> simp [hres]
+
 @[simp] theorem shutdown_dead (s : St) : (shutdown s).dead = s.dead := by
   unfold shutdown clearResolved
   cases s.rcancel <;> cases s.rel <;> cases hres : s.resolved <;> simp [hres]
@@ -129,7 +133,7 @@ theorem shutdown_calls (s : St) (j : Nat) :
   unfold shutdown clearResolved
   cases s.rcancel <;> cases s.rel <;> cases hres : s.resolved <;> simp [hres]
 
-@[simp] theorem shutdown_targetErr (s : St) : (shutdown s).targetErr = if s.resolved ∧ s.verr ≠ 0 ∧ s.tgt then 0 else s.targetErr := by
+@[simp] theorem shutdown_targetErr (s : St) : (shutdown s).targetErr = if s.resolved ∧ s.verr ≠ 0 ∧ s.tgtE then 0 else s.targetErr := by
   unfold shutdown clearResolved
   cases s.rcancel <;> cases s.rel <;> cases hres : s.resolved <;> simp [hres]
 
@@ -158,7 +162,7 @@ structure Core (s : St) : Prop where
                (h = true → c.released = false)
   curNone  : s.cur = none → s.rel = none ∧ s.value = 0 ∧ s.verr = 0
   tgtVal   : s.target = if s.tgt ∧ s.verr = 0 then s.value else 0
-  tgtErr   : s.targetErr = if s.tgt then s.verr else 0
+  tgtErr   : s.targetErr = if s.tgtE then s.verr else 0
   relFin   : ∀ (i : Nat) (c : Call), s.calls[i]? = some c → c.released = true → c.fin = true ∧ ∃ v e, c.res = some (v, true, e)
   storedFin : ∀ (i : Nat) (c : Call), s.calls[i]? = some c → c.stored = true → c.fin = true ∧ c.res.isSome
   noLeak   : ∀ (i : Nat) (c : Call) (v e : Nat), s.calls[i]? = some c → c.fin = true → c.res = some (v, true, e) →
